@@ -362,6 +362,37 @@ func (si *specInfo) spellings(base string, r apiRoute, thorough bool) []spelling
 		if reduced {
 			return
 		}
+		// decoys: the value of a path parameter named like, or (once percent-decoded
+		// and cleaned) climbing to, each of the other places — the router takes it
+		// as the parameter of the operation
+		for pi := range r.Segs {
+			if r.Fixed[pi] {
+				continue
+			}
+			at := len(bs) + len(si.BaseSegs) + pi // index of the parameter in all
+			for _, p := range si.prefixes() {
+				last := p.Segs[len(p.Segs)-1]
+				c := append([]string{}, all...)
+				c[at] = last
+				add(pre+"param-named-like-"+p.Name, "", join(c))
+				slashes := []string{"%2f"}
+				if thorough {
+					slashes = append(slashes, "%2F", "%5c")
+				}
+				for _, sl := range slashes {
+					// from the parameter's directory up to the base path's root, then down to p
+					val := strings.Repeat(".."+sl, len(si.BaseSegs)+pi) + strings.Join(p.Segs, sl)
+					c := append([]string{}, all...)
+					c[at] = val
+					add(pre+"param-decoy-"+p.Name, sl, join(c))
+					if thorough {
+						c = append([]string{}, all...)
+						c[at] = strings.ReplaceAll(val, "..", "%2e%2e")
+						add(pre+"param-decoy-"+p.Name, sl+"+%2e%2e", join(c))
+					}
+				}
+			}
+		}
 		// percent-encoded slash / letter, case
 		for i := 1; i < n; i++ {
 			add(pre+"pct-slash", fmt.Sprint("%2f@", i), join(all[:i])+"%2f"+strings.Join(all[i:], "/"))
